@@ -746,6 +746,22 @@ func runChains(c *mon.Case) {
 	if r.Chance(0.4) {
 		alpha = gen.AaCore + gen.AaLower + "BZX-*?"
 	}
+	// the --alphabet option, given to every command of the chain: needed for peptides made of letters that are
+	// also nucleotide codes (auto-detection says nucleotides)
+	var alphaFlag []string
+	switch r.Intn(5) {
+	case 0:
+		alpha = "ACGTDKSHMNVWYBRX-"
+		alphaFlag = a("--alphabet", "aa")
+		c.Count("chain:alphabet-aa-on-ambiguous-letters")
+	case 1:
+		if strings.HasPrefix(alpha, "ACGT") {
+			alphaFlag = a("--alphabet", "nt")
+		} else {
+			alphaFlag = a("--alphabet", "aa")
+		}
+		c.Count("chain:alphabet-given")
+	}
 	rows := make(gen.Rows, n)
 	for i := range rows {
 		rows[i] = gen.Seq{Name: r.Str(r.Range(1, 9), "abcXYZ019_") + gen.Itoa(i), Seq: r.Str(L, alpha)}
@@ -753,20 +769,25 @@ func runChains(c *mon.Case) {
 	src := filepath.Join(dir, "src.fa")
 	writeFasta(src, rows)
 	steps := r.Range(2, 5)
-	chain := []int{r.Intn(len(chainFormats))}
+	pick := func() int { return r.Intn(len(chainFormats)) }
+	if len(alphaFlag) > 0 && alpha == "ACGTDKSHMNVWYBRX-" {
+		// the formats whose text depends on the alphabet (nexus datatype, clustal conservation line) and two neutral ones
+		pick = func() int { return []int{0, 1, 6, 7, 6, 7}[r.Intn(6)] }
+	}
+	chain := []int{pick()}
 	for len(chain) < steps {
-		chain = append(chain, r.Intn(len(chainFormats)))
+		chain = append(chain, pick())
 	}
 	chain = append(chain, chain[0])
 	names := make([]string, len(chain))
 	for i, k := range chain {
 		names[i] = chainFormats[k].name
 	}
-	c.Input(map[string]interface{}{"rows": rows, "chain": names})
+	c.Input(map[string]interface{}{"rows": rows, "chain": names, "alphabet_option": alphaFlag})
 	bin := binary()
 	// the starting file is written by goalign itself
 	cur := filepath.Join(dir, "f0")
-	o := run(bin, dir, 0, append(append(a("reformat"), chainFormats[chain[0]].writeArg...), "-i", src, "-o", cur))
+	o := run(bin, dir, 0, append(append(append(a("reformat"), chainFormats[chain[0]].writeArg...), alphaFlag...), "-i", src, "-o", cur))
 	if o.exit != 0 {
 		c.Failf("chain:reformat-fails", "cannot write the starting %s file: %s", names[0], o.describe())
 		return
@@ -776,7 +797,7 @@ func runChains(c *mon.Case) {
 	for i := 1; i < len(chain); i++ {
 		f := chainFormats[chain[i]]
 		next := filepath.Join(dir, fmt.Sprintf("f%d", i))
-		args := append(append(append(a("reformat"), f.writeArg...), prev.readArg...), "-i", cur, "-o", next, "-t", r.PickStr([]string{"1", "4"}))
+		args := append(append(append(append(a("reformat"), f.writeArg...), prev.readArg...), alphaFlag...), "-i", cur, "-o", next, "-t", r.PickStr([]string{"1", "4"}))
 		o := run(bin, dir, i, args)
 		if o.exit != 0 {
 			c.Failf("chain:reformat-fails", "step %d (%s -> %s) fails: %s\ninput file: %q", i, prev.name, f.name, o.describe(), clip(string(mustRead(cur)), 600))
@@ -902,7 +923,7 @@ func main() {
 	}
 	mon.Main("C11", []mon.Sub{
 		{Name: "commands", Quick: 3 * len(table), Thorough: 8 * len(table), Run: runCommands},
-		{Name: "chains", Quick: 120, Thorough: 2000, Run: runChains},
+		{Name: "chains", Quick: 240, Thorough: 4000, Run: runChains},
 		{Name: "boot", Quick: 28, Thorough: 280, Run: runBoot},
 		{Name: "race-cli", Quick: 0, Thorough: 2 * len(table), Run: runRaceCLI},
 	})
